@@ -1,0 +1,7 @@
+//go:build !verif
+// +build !verif
+
+package whispertool
+
+// verifYield does nothing unless the package is built with the "verif" tag.
+func verifYield(point, filename string) {}
